@@ -385,5 +385,146 @@ theorem damp_one (w : Vec) : ∀ a ∈ damp w 1, a = 0 ∨ a = 1 := by
   · right; assumption
   · left; norm_num
 
+/-! ### Ackley, Scaffer, Schwefel 2.6 / 2.13, F8F2 -/
+
+theorem sum_map_le (x : Vec) (F : Rat → Rat) (S : Rat) (h : ∀ a, F a ≤ S) :
+    sum (x.map F) ≤ (x.length : Rat) * S := by
+  induction x with
+  | nil => simp
+  | cons a l ih =>
+    have := h a
+    simp only [List.map_cons, sum_cons, List.length_cons]; push_cast; linarith
+
+theorem ackley_spec (E R cs : Rat → Rat) (a b : Rat) (ha : 0 ≤ a) (hb : 0 ≤ b)
+    (hEmono : ∀ u v, u ≤ v → E u ≤ E v) (hE0 : E 0 = 1) (hR : ∀ u, 0 ≤ u → 0 ≤ R u) (hR0 : R 0 = 0)
+    (hc : ∀ z, cs z ≤ 1) (hc0 : cs 0 = 1) (x : Vec) (hne : x ≠ []) :
+    0 ≤ ackley E R cs a b x ∧ ackley E R cs a b (List.replicate x.length 0) = 0 := by
+  have hlen : 0 < x.length := List.length_pos_iff.2 hne
+  have hD : (0 : Rat) < (x.length : Rat) := by exact_mod_cast hlen
+  constructor
+  · have hq : 0 ≤ sum (x.map fun z => z * z) / (x.length : Rat) := by
+      apply div_nonneg _ (le_of_lt hD)
+      apply sum_nonneg
+      intro c hc'
+      obtain ⟨z, _, rfl⟩ := List.mem_map.1 hc'
+      exact mul_self_nonneg z
+    have hu : - b * R (sum (x.map fun z => z * z) / (x.length : Rat)) ≤ 0 := by
+      have := mul_nonneg hb (hR _ hq); linarith
+    have hE1 : E (- b * R (sum (x.map fun z => z * z) / (x.length : Rat))) ≤ 1 := by
+      rw [← hE0]; exact hEmono _ _ hu
+    have haE := mul_le_mul_of_nonneg_left hE1 ha
+    have hcs : sum (x.map cs) / (x.length : Rat) ≤ 1 := by
+      rw [div_le_one hD]
+      have := sum_map_le x cs 1 hc; linarith
+    have hE2 := hEmono _ _ hcs
+    unfold ackley; simp only; linarith
+  · have hD' : (x.length : Rat) ≠ 0 := ne_of_gt hD
+    unfold ackley
+    simp only [List.map_replicate, sum_replicate, List.length_replicate, hc0]
+    have h1 : (x.length : Rat) * (0 * 0) / (x.length : Rat) = 0 := by norm_num
+    have h2 : (x.length : Rat) * 1 / (x.length : Rat) = 1 := by field_simp
+    have h3 : -b * (0 : Rat) = 0 := by ring
+    rw [h1, h2, hR0, h3, hE0]; ring
+
+theorem scafferPair_nonneg (sn2 : Rat → Rat) (h01 : ∀ s, 0 ≤ sn2 s ∧ sn2 s ≤ 1) (x y : Rat) :
+    0 ≤ scafferPair sn2 x y := by
+  have hs : 0 ≤ x * x + y * y := add_nonneg (mul_self_nonneg x) (mul_self_nonneg y)
+  have h1 : (1 : Rat) ≤ 1 + (x * x + y * y) / 1000 := by
+    have : 0 ≤ (x * x + y * y) / 1000 := div_nonneg hs (by norm_num)
+    linarith
+  have hd : (1 : Rat) ≤ (1 + (x * x + y * y) / 1000) * (1 + (x * x + y * y) / 1000) := by
+    nlinarith
+  have hd0 : (0 : Rat) < (1 + (x * x + y * y) / 1000) * (1 + (x * x + y * y) / 1000) := by linarith
+  have hsn := (h01 (x * x + y * y)).1
+  have : -(1 / 2 : Rat) ≤ (sn2 (x * x + y * y) - 1 / 2) /
+      ((1 + (x * x + y * y) / 1000) * (1 + (x * x + y * y) / 1000)) := by
+    rw [le_div_iff₀ hd0]; nlinarith
+  unfold scafferPair; simp only; linarith
+
+theorem scafferPair_zero (sn2 : Rat → Rat) (h0 : sn2 0 = 0) : scafferPair sn2 0 0 = 0 := by
+  unfold scafferPair
+  have : (0 : Rat) * 0 + 0 * 0 = 0 := by norm_num
+  simp only [this, h0]; norm_num
+
+theorem cyclicPairs_replicate (n : Nat) (c : Rat) :
+    ∀ p ∈ cyclicPairs (List.replicate n c), p = (c, c) := by
+  intro p hp
+  obtain ⟨p1, p2⟩ := p
+  have h := List.of_mem_zip hp
+  have h1 : p1 = c := (List.mem_replicate.1 h.1).2
+  have h2 : p2 = c := by
+    rcases List.mem_append.1 h.2 with h' | h'
+    · exact (List.mem_replicate.1 (List.mem_of_mem_drop h')).2
+    · exact (List.mem_replicate.1 (List.mem_of_mem_take h')).2
+  rw [h1, h2]
+
+theorem scaffer_spec (sn2 : Rat → Rat) (h01 : ∀ s, 0 ≤ sn2 s ∧ sn2 s ≤ 1) (h0 : sn2 0 = 0) (x : Vec) :
+    0 ≤ scaffer sn2 x ∧ scaffer sn2 (List.replicate x.length 0) = 0 := by
+  constructor
+  · apply sum_nonneg
+    intro c hc
+    obtain ⟨p, _, rfl⟩ := List.mem_map.1 hc
+    exact scafferPair_nonneg sn2 h01 _ _
+  · apply sum_eq_zero_of_forall
+    intro c hc
+    obtain ⟨p, hp, rfl⟩ := List.mem_map.1 hc
+    rw [cyclicPairs_replicate _ _ p hp]
+    exact scafferPair_zero sn2 h0
+
+theorem le_foldl_max (l : Vec) (init : Rat) : init ≤ l.foldl max init := by
+  induction l generalizing init with
+  | nil => exact le_refl _
+  | cons a l ih => rw [List.foldl_cons]; exact le_trans (le_max_left _ _) (ih _)
+
+theorem absR_zero : absR 0 = 0 := by simp [absR]
+
+theorem schwefel26_self (ao : Vec) : schwefel26 ao ao = 0 := by
+  unfold schwefel26
+  induction ao with
+  | nil => rfl
+  | cons a l ih =>
+    rw [List.zipWith_cons_cons, List.foldl_cons, sub_self, absR_zero, max_self]; exact ih
+
+theorem schwefel26_spec (ax ao : Vec) : 0 ≤ schwefel26 ax ao ∧ schwefel26 ao ao = 0 :=
+  ⟨le_foldl_max _ 0, schwefel26_self ao⟩
+
+theorem schwefel213_nonneg (A B : Vec) : 0 ≤ schwefel213 A B := by
+  unfold schwefel213
+  induction A generalizing B with
+  | nil => simp
+  | cons a l ih =>
+    cases B with
+    | nil => simp
+    | cons b m =>
+      rw [List.zipWith_cons_cons, sum_cons]
+      have := ih m
+      have := mul_self_nonneg (a - b)
+      linarith
+
+theorem schwefel213_self (A : Vec) : schwefel213 A A = 0 := by
+  unfold schwefel213
+  induction A with
+  | nil => rfl
+  | cons a l ih => rw [List.zipWith_cons_cons, sum_cons, ih]; ring
+
+theorem schwefel213_spec (A B : Vec) : 0 ≤ schwefel213 A B ∧ schwefel213 A A = 0 :=
+  ⟨schwefel213_nonneg A B, schwefel213_self A⟩
+
+theorem rosenbrock_one_one : rosenbrock [1, 1] = 0 := by
+  simp [rosenbrock]
+
+theorem f8f2_spec (g : Rat → Rat) (hg : ∀ u, 0 ≤ g u) (hg0 : g 0 = 0) (x : Vec) :
+    0 ≤ f8f2 g x ∧ f8f2 g (List.replicate x.length 1) = 0 := by
+  constructor
+  · apply sum_nonneg
+    intro c hc
+    obtain ⟨p, _, rfl⟩ := List.mem_map.1 hc
+    exact hg _
+  · apply sum_eq_zero_of_forall
+    intro c hc
+    obtain ⟨p, hp, rfl⟩ := List.mem_map.1 hc
+    rw [cyclicPairs_replicate _ _ p hp]
+    simp only [rosenbrock_one_one, hg0]
+
 
 end TFV.Bench
